@@ -24,6 +24,8 @@ Table == {
   E("indent_width", "2", "--indent-width", "indent_size", "2", "spaces"),
   E("indent_width", "8", "--indent-width", "indent_size", "8", "spaces"),
   E("indent_width", "3", "--indent-width", "tab_width", "3", "spaces_tabwidth"),
+  \* indent_size = N next to a DIFFERENT tab_width: tab_width only matters for `indent_size = tab` (EditorConfig)
+  E("indent_width", "5", "--indent-width", "indent_size", "5", "spaces_othertab"),
   E("quote_style", "AutoPreferDouble", "--quote-style", "quote_type", "double", "plain"),
   E("quote_style", "AutoPreferSingle", "--quote-style", "quote_type", "single", "plain"),
   E("quote_style", "ForceDouble", "--quote-style", "", "", "plain"),
